@@ -242,6 +242,9 @@ VARIANTS = [
   ("removals-unsorted", U, "    all_removals = col_recs + sorted(c for c in more_removals if c.id and c not in orig_removals)",
    "    all_removals = col_recs + [c for c in more_removals if c.id and c not in orig_removals]", "C30-R2"),
   ("useraction-returns-set-order", U, "    return filled_row_ids\n", "    return list(set(filled_row_ids))\n", "C30-R3"),
+  ("group-sort-key-not-injective", "sandbox/grist/table.py",
+   "        for values_tuple in sorted(itertools.product(*lookup_values)):",
+   "        for values_tuple in sorted(itertools.product(*lookup_values), key=lambda t: [str(v).lower() for v in t]):", "C30-R2"),
   ("work-items-not-total", "sandbox/grist/engine.py",
    "key=lambda n: (not n.col_id.startswith('#lookup'), n))", "key=lambda n: (not n.col_id.startswith('#lookup'), n.table_id))", "C30-R4"),
   ("deltas-unsorted", "sandbox/grist/action_summary.py", "    for table_id in sorted(self._tables):", "    for table_id in self._tables:", "C30-R5"),
